@@ -22,7 +22,7 @@ import (
 // the next reads of the table in the same transaction equal the first read, and the COMMIT leaves the file as it was
 // (variant "own": the transaction has changed the table before; the reads show that change, the COMMIT writes it).
 func init() {
-	core.Extend("C20", "family borrowed-cell: a table of string cells (CSV) / string, integer and float cells (JSON), read (or changed) first x the cell handed to each of 40 value-taking statement forms x "+
+	core.Extend("C20", "family borrowed-cell: a table of string cells (CSV) / string, integer and float cells (JSON), read (or changed) first x the cell handed to each of 43 value-taking statement forms x "+
 		"as a scalar subquery, a VAR, a SELECT INTO variable, a FETCH INTO variable; then new values of every pooled type are made and another file is loaded; oracle: the reads afterwards equal the first read, "+
 		"the file after COMMIT is unchanged (or holds exactly the transaction's own change)", c20BorrowRun)
 }
